@@ -509,6 +509,115 @@ def app_daemon__names : List String := [
   "Process.notifyDaemonStopped",
   "Process.isDaemonLaunched"]
 
+/-- src/app/proc_opts.go: its functions -/
+def app_proc_opts__names : List String := [
+  "withTuiOn",
+  "withGlobalEnv",
+  "withLogger",
+  "withProcConf",
+  "withProcState",
+  "withProcLog",
+  "withShellConfig",
+  "withPrintLogs",
+  "withIsMain",
+  "withExtraArgs"]
+
+/-- src/app/proc_opts.go:withExtraArgs -/
+def app_proc_opts__withExtraArgs : List String := [
+  "func withExtraArgs(extraArgs []string) ProcOpts {",
+  "return func(proc *Process) {",
+  "proc.extraArgs = extraArgs",
+  "}",
+  "}"]
+
+/-- src/app/proc_opts.go:withGlobalEnv -/
+def app_proc_opts__withGlobalEnv : List String := [
+  "func withGlobalEnv(globalEnv []string) ProcOpts {",
+  "return func(proc *Process) {",
+  "proc.globalEnv = globalEnv",
+  "}",
+  "}"]
+
+/-- src/app/proc_opts.go:withIsMain -/
+def app_proc_opts__withIsMain : List String := [
+  "func withIsMain(isMain bool) ProcOpts {",
+  "return func(proc *Process) {",
+  "proc.isMain = isMain",
+  "}",
+  "}"]
+
+/-- src/app/proc_opts.go:withLogger -/
+def app_proc_opts__withLogger : List String := [
+  "func withLogger(logger pclog.PcLogger) ProcOpts {",
+  "return func(proc *Process) {",
+  "proc.logger = logger",
+  "}",
+  "}"]
+
+/-- src/app/proc_opts.go:withPrintLogs -/
+def app_proc_opts__withPrintLogs : List String := [
+  "func withPrintLogs(printLogs bool) ProcOpts {",
+  "return func(proc *Process) {",
+  "proc.printLogs = printLogs",
+  "}",
+  "}"]
+
+/-- src/app/proc_opts.go:withProcConf -/
+def app_proc_opts__withProcConf : List String := [
+  "func withProcConf(procConf *types.ProcessConfig) ProcOpts {",
+  "return func(proc *Process) {",
+  "proc.procConf = procConf",
+  "}",
+  "}"]
+
+/-- src/app/proc_opts.go:withProcLog -/
+def app_proc_opts__withProcLog : List String := [
+  "func withProcLog(procLog *pclog.ProcessLogBuffer) ProcOpts {",
+  "return func(proc *Process) {",
+  "proc.logBuffer = procLog",
+  "}",
+  "}"]
+
+/-- src/app/proc_opts.go:withProcState -/
+def app_proc_opts__withProcState : List String := [
+  "func withProcState(procState *types.ProcessState) ProcOpts {",
+  "return func(proc *Process) {",
+  "proc.procState = procState",
+  "}",
+  "}"]
+
+/-- src/app/proc_opts.go:withShellConfig -/
+def app_proc_opts__withShellConfig : List String := [
+  "func withShellConfig(shellConfig command.ShellConfig) ProcOpts {",
+  "return func(proc *Process) {",
+  "proc.shellConfig = shellConfig",
+  "}",
+  "}"]
+
+/-- src/app/proc_opts.go:withTuiOn -/
+def app_proc_opts__withTuiOn : List String := [
+  "func withTuiOn(isTuiEnabled bool) ProcOpts {",
+  "return func(proc *Process) {",
+  "proc.isTuiEnabled = isTuiEnabled",
+  "}",
+  "}"]
+
+/-- src/app/process.go:NewProcess -/
+def app_process__NewProcess : List String := [
+  "func NewProcess(opts ...ProcOpts) *Process {",
+  "proc := &Process{redColor: color.New(color.FgHiRed).SprintFunc(), noColor: color.New(color.Reset).SprintFunc(), started: false, done: false, procStateChan: make(chan string, 1), procStartedChan: make(chan struct{}, 1)}",
+  "for _, opt := range opts {",
+  "opt(proc)",
+  "}",
+  "proc.procColor = pclog.Name2Color(proc.getName())",
+  "proc.procReadyCtx, proc.readyCancelFn = context.WithCancel(context.Background())",
+  "proc.procLogReadyCtx, proc.readyLogCancelFn = context.WithCancelCause(context.Background())",
+  "proc.procRunCtx, proc.runCancelFn = context.WithCancel(context.Background())",
+  "proc.setUpProbes()",
+  "proc.procCond = *sync.NewCond(proc)",
+  "return proc",
+  "}"]
+
 /-- src/app/process.go:Process.doConfiguredStop -/
 def app_process__Process_doConfiguredStop : List String := [
   "func (p *Process) doConfiguredStop(params types.ShutDownParams) error {",
@@ -558,6 +667,25 @@ def app_process__Process_getBackoff : List String := [
   "backoff = p.procConf.RestartPolicy.BackoffSeconds",
   "}",
   "return time.Duration(backoff) * time.Second",
+  "}"]
+
+/-- src/app/process.go:Process.getCommand -/
+def app_process__Process_getCommand : List String := [
+  "func (p *Process) getCommand() []string {",
+  "return append([]string{(*p.procConf).Executable}, p.mergeExtraArgs()...)",
+  "}"]
+
+/-- src/app/process.go:Process.getCommander -/
+def app_process__Process_getCommander : List String := [
+  "func (p *Process) getCommander() command.Commander {",
+  "if c := verifCommander(p); c != nil {",
+  "return c",
+  "}",
+  "if p.procConf.IsTty && !p.isMain {",
+  "return command.BuildPtyCommand(p.procConf.Executable, p.mergeExtraArgs())",
+  "} else {",
+  "return command.BuildCommand(p.procConf.Executable, p.mergeExtraArgs())",
+  "}",
   "}"]
 
 /-- src/app/process.go:Process.getExitCode -/
@@ -652,6 +780,14 @@ def app_process__Process_getRestarts : List String := [
   "return p.procState.Restarts",
   "}"]
 
+/-- src/app/process.go:Process.getStartTime -/
+def app_process__Process_getStartTime : List String := [
+  "func (p *Process) getStartTime() time.Time {",
+  "p.timeMutex.Lock()",
+  "defer p.timeMutex.Unlock()",
+  "return p.startTime",
+  "}"]
+
 /-- src/app/process.go:Process.getStartingStateName -/
 def app_process__Process_getStartingStateName : List String := [
   "func (p *Process) getStartingStateName() string {",
@@ -690,6 +826,15 @@ def app_process__Process_getStateSnapshot : List String := [
   "return *p.procState",
   "}"]
 
+/-- src/app/process.go:Process.getStatusName -/
+def app_process__Process_getStatusName : List String := [
+  "func (p *Process) getStatusName() string {",
+  "p.updateProcState()",
+  "p.stateMtx.Lock()",
+  "defer p.stateMtx.Unlock()",
+  "return p.procState.Status",
+  "}"]
+
 /-- src/app/process.go:Process.handleError -/
 def app_process__Process_handleError : List String := [
   "func (p *Process) handleError(message string) {",
@@ -708,6 +853,19 @@ def app_process__Process_handleInfo : List String := [
   "fmt.Printf(\"[%s\\t] %s\\n\", p.procColor(p.getName()), message)",
   "}",
   "p.logBuffer.Write(message)",
+  "}"]
+
+/-- src/app/process.go:Process.handleInput -/
+def app_process__Process_handleInput : List String := [
+  "func (p *Process) handleInput(pipe io.WriteCloser) {",
+  "reader := bufio.NewReader(os.Stdin)",
+  "for {",
+  "input, err := reader.ReadString('\\n')",
+  "if err != nil {",
+  "continue",
+  "}",
+  "_, _ = pipe.Write([]byte(input))",
+  "}",
   "}"]
 
 /-- src/app/process.go:Process.handleOutput -/
@@ -801,6 +959,24 @@ def app_process__Process_isState : List String := [
   "p.stateMtx.Lock()",
   "defer p.stateMtx.Unlock()",
   "return p.procState.Status == state",
+  "}"]
+
+/-- src/app/process.go:Process.mergeExtraArgs -/
+def app_process__Process_mergeExtraArgs : List String := [
+  "func (p *Process) mergeExtraArgs() []string {",
+  "if len(p.extraArgs) == 0 {",
+  "return p.procConf.Args",
+  "}",
+  "tmp := make([]string, len(p.procConf.Args))",
+  "copy(tmp, p.procConf.Args)",
+  "if isStringDefined(p.procConf.Command) {",
+  "lastArg := p.procConf.Args[len(p.procConf.Args)-1]",
+  "lastArg += \" \" + strings.Join(p.extraArgs, \" \")",
+  "return append(tmp[:len(tmp)-1], lastArg)",
+  "} else if len(p.procConf.Entrypoint) > 0 {",
+  "return append(tmp, p.extraArgs...)",
+  "}",
+  "return p.procConf.Args",
   "}"]
 
 /-- src/app/process.go:Process.onLivenessCheckEnd -/
@@ -971,6 +1147,14 @@ def app_process__Process_setName : List String := [
   "p.procConf.ReplicaName = replicaName",
   "}"]
 
+/-- src/app/process.go:Process.setStartTime -/
+def app_process__Process_setStartTime : List String := [
+  "func (p *Process) setStartTime(startTime time.Time) {",
+  "p.timeMutex.Lock()",
+  "defer p.timeMutex.Unlock()",
+  "p.startTime = startTime",
+  "}"]
+
 /-- src/app/process.go:Process.setState -/
 def app_process__Process_setState : List String := [
   "func (p *Process) setState(state string) {",
@@ -1094,6 +1278,21 @@ def app_process__Process_updateProcState : List String := [
   "p.procState.IsRunning = isRunning",
   "p.procState.IsElevated = p.procConf.IsElevated",
   "p.procState.PasswordProvided = p.passProvided",
+  "}"]
+
+/-- src/app/process.go:Process.validateProcess -/
+def app_process__Process_validateProcess : List String := [
+  "func (p *Process) validateProcess() error {",
+  "if isStringDefined(p.procConf.WorkingDir) {",
+  "stat, err := os.Stat(p.procConf.WorkingDir)",
+  "if err != nil {",
+  "return err",
+  "}",
+  "if !stat.IsDir() {",
+  "return fmt.Errorf(\"%s is not a directory\", p.procConf.WorkingDir)",
+  "}",
+  "}",
+  "return nil",
   "}"]
 
 /-- src/app/process.go:Process.waitForCompletion -/
@@ -1235,6 +1434,12 @@ def app_project_opts__names : List String := [
   "ProjectOpts.WithOrderedShutDown",
   "ProjectOpts.WithDotEnvDisabled"]
 
+/-- src/app/project_runner.go:ProjectRunner.GetLexicographicProcessNames -/
+def app_project_runner__ProjectRunner_GetLexicographicProcessNames : List String := [
+  "func (p *ProjectRunner) GetLexicographicProcessNames() ([]string, error) {",
+  "return p.project.GetLexicographicProcessNames()",
+  "}"]
+
 /-- src/app/project_runner.go:ProjectRunner.GetLogsAndSubscribe -/
 def app_project_runner__ProjectRunner_GetLogsAndSubscribe : List String := [
   "func (p *ProjectRunner) GetLogsAndSubscribe(name string, observer pclog.LogObserver) error {",
@@ -1244,6 +1449,18 @@ def app_project_runner__ProjectRunner_GetLogsAndSubscribe : List String := [
   "}",
   "logs.GetLogsAndSubscribe(observer)",
   "return nil",
+  "}"]
+
+/-- src/app/project_runner.go:ProjectRunner.GetProcessInfo -/
+def app_project_runner__ProjectRunner_GetProcessInfo : List String := [
+  "func (p *ProjectRunner) GetProcessInfo(name string) (*types.ProcessConfig, error) {",
+  "p.runProcMutex.Lock()",
+  "defer p.runProcMutex.Unlock()",
+  "if processConfig, ok := p.project.Processes[name]; ok {",
+  "return &processConfig, nil",
+  "} else {",
+  "return nil, fmt.Errorf(\"no such process: %s\", name)",
+  "}",
   "}"]
 
 /-- src/app/project_runner.go:ProjectRunner.GetProcessLog -/
@@ -1264,6 +1481,21 @@ def app_project_runner__ProjectRunner_GetProcessLogLength : List String := [
   "return 0",
   "}",
   "return logs.GetLogLength()",
+  "}"]
+
+/-- src/app/project_runner.go:ProjectRunner.GetProcessPorts -/
+def app_project_runner__ProjectRunner_GetProcessPorts : List String := [
+  "func (p *ProjectRunner) GetProcessPorts(name string) (*types.ProcessPorts, error) {",
+  "proc := p.getRunningProcess(name)",
+  "if proc == nil {",
+  "return nil, fmt.Errorf(\"can't get ports: process %s is not running\", name)",
+  "}",
+  "ports := &types.ProcessPorts{Name: name, TcpPorts: make([]uint16, 0), UdpPorts: make([]uint16, 0)}",
+  "err := proc.getOpenPorts(ports)",
+  "if err != nil {",
+  "return nil, err",
+  "}",
+  "return ports, nil",
   "}"]
 
 /-- src/app/project_runner.go:ProjectRunner.GetProcessState -/
@@ -1583,6 +1815,25 @@ def app_project_runner__ProjectRunner_UpdateProject : List String := [
   "return status, errors.Join(errs...)",
   "}"]
 
+/-- src/app/project_runner.go:ProjectRunner.WaitForProjectShutdown -/
+def app_project_runner__ProjectRunner_WaitForProjectShutdown : List String := [
+  "func (p *ProjectRunner) WaitForProjectShutdown() {",
+  "if p.ctxApp != nil {",
+  "if !p.isTuiOn {",
+  "fmt.Println(\"Project Completed. Press Ctrl+C to quit\")",
+  "}",
+  "<-p.ctxApp.Done()",
+  "}",
+  "}"]
+
+/-- src/app/project_runner.go:ProjectRunner.addDoneProcess -/
+def app_project_runner__ProjectRunner_addDoneProcess : List String := [
+  "func (p *ProjectRunner) addDoneProcess(process *Process) {",
+  "p.doneProcMutex.Lock()",
+  "p.doneProcesses[process.getName()] = process",
+  "p.doneProcMutex.Unlock()",
+  "}"]
+
 /-- src/app/project_runner.go:ProjectRunner.addProcessAndRun -/
 def app_project_runner__ProjectRunner_addProcessAndRun : List String := [
   "func (p *ProjectRunner) addProcessAndRun(proc types.ProcessConfig) {",
@@ -1648,6 +1899,25 @@ def app_project_runner__ProjectRunner_getProcessLog : List String := [
   "return nil, fmt.Errorf(\"process %s doesn't exist\", name)",
   "}"]
 
+/-- src/app/project_runner.go:ProjectRunner.getProcessStateData -/
+def app_project_runner__ProjectRunner_getProcessStateData : List String := [
+  "func (p *ProjectRunner) getProcessStateData(name string, filter filterFn) error {",
+  "proc := p.getRunningProcess(name)",
+  "if proc != nil {",
+  "proc.getStateData(filter)",
+  "} else {",
+  "p.statesMutex.Lock()",
+  "defer p.statesMutex.Unlock()",
+  "state, ok := p.processStates[name]",
+  "if !ok {",
+  "return fmt.Errorf(\"can't get state of process %s: no such process\", name)",
+  "}",
+  "filter(state)",
+  "return nil",
+  "}",
+  "return nil",
+  "}"]
+
 /-- src/app/project_runner.go:ProjectRunner.getProcessStateSnapshot -/
 def app_project_runner__ProjectRunner_getProcessStateSnapshot : List String := [
   "func (p *ProjectRunner) getProcessStateSnapshot(name string) (types.ProcessState, error) {",
@@ -1664,6 +1934,18 @@ def app_project_runner__ProjectRunner_getProcessStateSnapshot : List String := [
   "return *state, nil",
   "}"]
 
+/-- src/app/project_runner.go:ProjectRunner.getProcessesStateData -/
+def app_project_runner__ProjectRunner_getProcessesStateData : List String := [
+  "func (p *ProjectRunner) getProcessesStateData(filter filterFn) error {",
+  "for name := range p.project.Processes {",
+  "err := p.getProcessStateData(name, filter)",
+  "if err != nil {",
+  "return err",
+  "}",
+  "}",
+  "return nil",
+  "}"]
+
 /-- src/app/project_runner.go:ProjectRunner.getRunningProcess -/
 def app_project_runner__ProjectRunner_getRunningProcess : List String := [
   "func (p *ProjectRunner) getRunningProcess(name string) *Process {",
@@ -1673,6 +1955,41 @@ def app_project_runner__ProjectRunner_getRunningProcess : List String := [
   "return runningProc",
   "}",
   "return nil",
+  "}"]
+
+/-- src/app/project_runner.go:ProjectRunner.init -/
+def app_project_runner__ProjectRunner_init : List String := [
+  "func (p *ProjectRunner) init() {",
+  "p.initProcessStates()",
+  "p.initProcessLogs()",
+  "}"]
+
+/-- src/app/project_runner.go:ProjectRunner.initProcessLog -/
+def app_project_runner__ProjectRunner_initProcessLog : List String := [
+  "func (p *ProjectRunner) initProcessLog(name string) {",
+  "p.logsMutex.Lock()",
+  "defer p.logsMutex.Unlock()",
+  "p.processLogs[name] = pclog.NewLogBuffer(p.project.LogLength)",
+  "}"]
+
+/-- src/app/project_runner.go:ProjectRunner.initProcessLogs -/
+def app_project_runner__ProjectRunner_initProcessLogs : List String := [
+  "func (p *ProjectRunner) initProcessLogs() {",
+  "p.processLogs = make(map[string]*pclog.ProcessLogBuffer)",
+  "for _, proc := range p.project.Processes {",
+  "p.initProcessLog(proc.ReplicaName)",
+  "}",
+  "}"]
+
+/-- src/app/project_runner.go:ProjectRunner.initProcessStates -/
+def app_project_runner__ProjectRunner_initProcessStates : List String := [
+  "func (p *ProjectRunner) initProcessStates() {",
+  "p.statesMutex.Lock()",
+  "defer p.statesMutex.Unlock()",
+  "p.processStates = make(map[string]*types.ProcessState)",
+  "for name, proc := range p.project.Processes {",
+  "p.processStates[name] = types.NewProcessState(&proc)",
+  "}",
   "}"]
 
 /-- src/app/project_runner.go:ProjectRunner.onProcessEnd -/
@@ -2791,6 +3108,44 @@ def client_stop__names : List String := [
   "PcClient.stopProcess",
   "PcClient.stopProcesses"]
 
+/-- src/cmd/0-init.go:init -/
+def cmd_0_init__init : List String := [
+  "func init() {",
+  "_ = godotenv.Load(\".pc_env\")",
+  "pcFlags = config.NewFlags()",
+  "commonFlags = pflag.NewFlagSet(\"\", pflag.ContinueOnError)",
+  "commonFlags.BoolVarP(pcFlags.IsReverseSort, flagReverse, \"R\", *pcFlags.IsReverseSort, \"sort in reverse order\")",
+  "commonFlags.StringVarP(pcFlags.SortColumn, flagSort, \"S\", *pcFlags.SortColumn, fmt.Sprintf(\"sort column name. legal values (case insensitive): [%s]\", strings.Join(tui.ColumnNames(), \", \")))",
+  "commonFlags.StringVar(pcFlags.PcTheme, flagTheme, *pcFlags.PcTheme, \"select process compose theme\")",
+  "}"]
+
+/-- src/cmd/logs.go:getLogClient -/
+def cmd_logs__getLogClient : List String := [
+  "func getLogClient() *client.LogClient {",
+  "var lc *client.LogClient",
+  "if *pcFlags.IsUnixSocket {",
+  "lc = client.NewLogClient(\"unix\", *pcFlags.UnixSocketPath)",
+  "} else {",
+  "address := fmt.Sprintf(\"%s:%d\", *pcFlags.Address, *pcFlags.PortNum)",
+  "lc = client.NewLogClient(address, \"\")",
+  "}",
+  "return lc",
+  "}"]
+
+/-- src/cmd/logs.go:init -/
+def cmd_logs__init : List String := [
+  "func init() {",
+  "processCmd.AddCommand(logsCmd)",
+  "logsCmd.Flags().BoolVarP(pcFlags.LogFollow, \"follow\", \"f\", *pcFlags.LogFollow, \"Follow log output\")",
+  "logsCmd.Flags().BoolVar(pcFlags.IsRawLogOutput, \"raw-log\", *pcFlags.IsRawLogOutput, \"If set, don't format the multi process log output to include the process name\")",
+  "logsCmd.Flags().IntVarP(pcFlags.LogTailLength, \"tail\", \"n\", *pcFlags.LogTailLength, \"Number of lines to show from the end of the logs\")",
+  "}"]
+
+/-- src/cmd/logs.go: its functions -/
+def cmd_logs__names : List String := [
+  "init",
+  "getLogClient"]
+
 /-- src/cmd/project_runner.go:getColumnId -/
 def cmd_project_runner__getColumnId : List String := [
   "func getColumnId(columnName string) tui.ColumnID {",
@@ -2955,6 +3310,146 @@ def cmd_project_runner_unix__runInDetachedMode : List String := [
   "startTui(getClient(), false)",
   "}",
   "os.Exit(0)",
+  "}"]
+
+/-- src/cmd/root.go:getClient -/
+def cmd_root__getClient : List String := [
+  "func getClient() *client.PcClient {",
+  "if *pcFlags.IsUnixSocket {",
+  "return client.NewUdsClient(*pcFlags.UnixSocketPath, *pcFlags.LogLength)",
+  "}",
+  "return client.NewTcpClient(*pcFlags.Address, *pcFlags.PortNum, *pcFlags.LogLength)",
+  "}"]
+
+/-- src/cmd/root.go:handleErrorAndExit -/
+def cmd_root__handleErrorAndExit : List String := [
+  "func handleErrorAndExit(err error) {",
+  "if err != nil {",
+  "var exitErr *app.ExitError",
+  "if errors.As(err, &exitErr) {",
+  "os.Exit(exitErr.Code)",
+  "}",
+  "os.Exit(1)",
+  "}",
+  "}"]
+
+/-- src/cmd/root.go:init -/
+def cmd_root__init : List String := [
+  "func init() {",
+  "opts = &loader.LoaderOptions{FileNames: []string{}}",
+  "nsAdmitter := &admitter.NamespaceAdmitter{}",
+  "opts.AddAdmitter(nsAdmitter)",
+  "rootCmd.Flags().BoolVarP(pcFlags.IsTuiEnabled, \"tui\", \"t\", *pcFlags.IsTuiEnabled, \"enable TUI (disable with -t=false) (env: \"+config.EnvVarNameTui+\")\")",
+  "rootCmd.Flags().StringArrayVar(pcFlags.ShortcutPaths, \"shortcuts\", config.GetShortCutsPaths(nil), \"paths to shortcut config files to load (env: \"+config.EnvVarNameShortcuts+\")\")",
+  "rootCmd.Flags().BoolVar(pcFlags.KeepTuiOn, \"keep-tui\", *pcFlags.KeepTuiOn, \"keep TUI running even after all processes exit\")",
+  "rootCmd.Flags().BoolVar(pcFlags.KeepProjectOn, \"keep-project\", *pcFlags.KeepProjectOn, \"keep the project running even after all processes exit\")",
+  "rootCmd.PersistentFlags().BoolVar(pcFlags.NoServer, \"no-server\", *pcFlags.NoServer, \"disable HTTP server (env: \"+config.EnvVarNameNoServer+\")\")",
+  "rootCmd.PersistentFlags().BoolVar(pcFlags.IsOrderedShutDown, \"ordered-shutdown\", *pcFlags.IsOrderedShutDown, \"shut down processes in reverse dependency order\")",
+  "rootCmd.Flags().BoolVarP(pcFlags.HideDisabled, \"hide-disabled\", \"d\", *pcFlags.HideDisabled, \"hide disabled processes (env: \"+config.EnvVarHideDisabled+\")\")",
+  "rootCmd.Flags().VarP(refreshRateFlag{pcFlags.RefreshRate}, \"ref-rate\", \"r\", \"TUI refresh rate in seconds or as a Go duration string (e.g. 1s)\")",
+  "rootCmd.PersistentFlags().IntVarP(pcFlags.PortNum, \"port\", \"p\", *pcFlags.PortNum, \"port number (env: \"+config.EnvVarNamePort+\")\")",
+  "rootCmd.Flags().StringArrayVarP(&opts.FileNames, \"config\", \"f\", config.GetConfigDefault(), \"path to config files to load (env: \"+config.EnvVarNameConfig+\")\")",
+  "rootCmd.Flags().StringArrayVarP(&opts.EnvFileNames, \"env\", \"e\", []string{\".env\"}, \"path to env files to load\")",
+  "rootCmd.Flags().StringArrayVarP(&nsAdmitter.EnabledNamespaces, \"namespace\", \"n\", nil, \"run only specified namespaces (default all)\")",
+  "rootCmd.PersistentFlags().StringVarP(pcFlags.LogFile, \"log-file\", \"L\", *pcFlags.LogFile, \"Specify the log file path (env: \"+config.LogPathEnvVarName+\")\")",
+  "rootCmd.PersistentFlags().BoolVar(pcFlags.IsReadOnlyMode, \"read-only\", *pcFlags.IsReadOnlyMode, \"enable read-only mode (env: \"+config.EnvVarReadOnlyMode+\")\")",
+  "rootCmd.Flags().BoolVar(pcFlags.DisableDotEnv, \"disable-dotenv\", *pcFlags.DisableDotEnv, \"disable .env file loading (env: \"+config.EnvVarDisableDotEnv+\"=1)\")",
+  "rootCmd.Flags().BoolVar(pcFlags.IsTuiFullScreen, \"tui-fs\", *pcFlags.IsTuiFullScreen, \"enable TUI full screen (env: \"+config.EnvVarTuiFullScreen+\"=1)\")",
+  "rootCmd.Flags().AddFlag(commonFlags.Lookup(flagReverse))",
+  "rootCmd.Flags().AddFlag(commonFlags.Lookup(flagSort))",
+  "rootCmd.Flags().AddFlag(commonFlags.Lookup(flagTheme))",
+  "_ = rootCmd.Flags().MarkDeprecated(\"keep-tui\", \"use --keep-project instead\")",
+  "if runtime.GOOS != \"windows\" {",
+  "rootCmd.Flags().BoolVarP(pcFlags.IsDetached, \"detached\", \"D\", *pcFlags.IsDetached, \"run process-compose in detached mode\")",
+  "rootCmd.Flags().BoolVar(pcFlags.IsDetachedWithTui, \"detached-with-tui\", *pcFlags.IsDetachedWithTui, \"run process-compose in detached mode with TUI\")",
+  "rootCmd.Flags().BoolVar(pcFlags.DetachOnSuccess, \"detach-on-success\", *pcFlags.DetachOnSuccess, \"detach the process-compose TUI after successful startup. Requires --detached-with-tui\")",
+  "rootCmd.PersistentFlags().StringVarP(pcFlags.UnixSocketPath, \"unix-socket\", \"u\", config.GetUnixSocketPath(), \"path to unix socket (env: \"+config.EnvVarUnixSocketPath+\")\")",
+  "rootCmd.PersistentFlags().BoolVarP(pcFlags.IsUnixSocket, \"use-uds\", \"U\", *pcFlags.IsUnixSocket, \"use unix domain sockets instead of tcp\")",
+  "}",
+  "}"]
+
+/-- src/cmd/root.go:runProjectCmd -/
+def cmd_root__runProjectCmd : List String := [
+  "func runProjectCmd(args []string) {",
+  "defer func() {",
+  "_ = logFile.Close()",
+  "}()",
+  "runner := getProjectRunner(args, *pcFlags.NoDependencies, \"\", []string{})",
+  "if *pcFlags.IsDetached || *pcFlags.IsDetachedWithTui {",
+  "runInDetachedMode()",
+  "}",
+  "err := waitForProjectAndServer(!*pcFlags.IsTuiEnabled, runner)",
+  "handleErrorAndExit(err)",
+  "}"]
+
+/-- src/cmd/root.go:startHttpServerIfEnabled -/
+def cmd_root__startHttpServerIfEnabled : List String := [
+  "func startHttpServerIfEnabled(useLogger bool, runner *app.ProjectRunner) (*http.Server, error) {",
+  "if !*pcFlags.NoServer {",
+  "if *pcFlags.IsUnixSocket {",
+  "return api.StartHttpServerWithUnixSocket(useLogger, *pcFlags.UnixSocketPath, runner)",
+  "}",
+  "return api.StartHttpServerWithTCP(useLogger, *pcFlags.PortNum, runner)",
+  "}",
+  "return nil, nil",
+  "}"]
+
+/-- src/cmd/root.go:waitForProjectAndServer -/
+def cmd_root__waitForProjectAndServer : List String := [
+  "func waitForProjectAndServer(useLogger bool, runner *app.ProjectRunner) error {",
+  "server, err := startHttpServerIfEnabled(useLogger, runner)",
+  "if err != nil {",
+  "return err",
+  "}",
+  "if err = runProject(runner); err != nil {",
+  "return err",
+  "}",
+  "if server != nil {",
+  "shutdownTimeout := 5 * time.Second",
+  "ctx, cancel := context.WithTimeout(context.Background(), shutdownTimeout)",
+  "defer cancel()",
+  "if err := server.Shutdown(ctx); err != nil {",
+  "return err",
+  "}",
+  "}",
+  "return nil",
+  "}"]
+
+/-- src/cmd/run.go:init -/
+def cmd_run__init : List String := [
+  "func init() {",
+  "rootCmd.AddCommand(runCmd)",
+  "runCmd.Flags().BoolVarP(pcFlags.NoDependencies, \"no-deps\", \"\", *pcFlags.NoDependencies, \"don't start dependent processes\")",
+  "runCmd.Flags().AddFlag(rootCmd.Flags().Lookup(\"config\"))",
+  "runCmd.Flags().AddFlag(rootCmd.Flags().Lookup(\"disable-dotenv\"))",
+  "}"]
+
+/-- src/cmd/up.go:init -/
+def cmd_up__init : List String := [
+  "func init() {",
+  "rootCmd.AddCommand(upCmd)",
+  "nsAdmitter := &admitter.NamespaceAdmitter{}",
+  "opts.AddAdmitter(nsAdmitter)",
+  "upCmd.Flags().BoolVarP(pcFlags.NoDependencies, \"no-deps\", \"\", *pcFlags.NoDependencies, \"don't start dependent processes\")",
+  "upCmd.Flags().AddFlag(rootCmd.Flags().Lookup(\"namespace\"))",
+  "upCmd.Flags().AddFlag(rootCmd.Flags().Lookup(\"config\"))",
+  "upCmd.Flags().AddFlag(rootCmd.Flags().Lookup(\"env\"))",
+  "upCmd.Flags().AddFlag(rootCmd.Flags().Lookup(\"ref-rate\"))",
+  "upCmd.Flags().AddFlag(rootCmd.Flags().Lookup(\"tui\"))",
+  "upCmd.Flags().AddFlag(rootCmd.Flags().Lookup(\"hide-disabled\"))",
+  "upCmd.Flags().AddFlag(rootCmd.Flags().Lookup(\"disable-dotenv\"))",
+  "upCmd.Flags().AddFlag(rootCmd.Flags().Lookup(\"keep-tui\"))",
+  "upCmd.Flags().AddFlag(rootCmd.Flags().Lookup(\"keep-project\"))",
+  "upCmd.Flags().AddFlag(rootCmd.Flags().Lookup(\"shortcuts\"))",
+  "upCmd.Flags().AddFlag(commonFlags.Lookup(flagReverse))",
+  "upCmd.Flags().AddFlag(commonFlags.Lookup(flagSort))",
+  "upCmd.Flags().AddFlag(commonFlags.Lookup(flagTheme))",
+  "if runtime.GOOS != \"windows\" {",
+  "upCmd.Flags().AddFlag(rootCmd.Flags().Lookup(\"detached\"))",
+  "upCmd.Flags().AddFlag(rootCmd.Flags().Lookup(\"detached-with-tui\"))",
+  "upCmd.Flags().AddFlag(rootCmd.Flags().Lookup(\"detach-on-success\"))",
+  "}",
+  "_ = upCmd.Flags().MarkDeprecated(\"keep-tui\", \"use --keep-project instead\")",
   "}"]
 
 /-- src/command/command.go:BuildCommand -/
@@ -3481,6 +3976,45 @@ def loader_loader__admitProcesses : List String := [
   "return p",
   "}"]
 
+/-- src/loader/loader.go:autoDiscoverComposeFile -/
+def loader_loader__autoDiscoverComposeFile : List String := [
+  "func autoDiscoverComposeFile(opts *LoaderOptions) error {",
+  "if len(opts.FileNames) > 0 {",
+  "return nil",
+  "}",
+  "pwd, err := opts.getWorkingDir()",
+  "if err != nil {",
+  "return err",
+  "}",
+  "candidates := findFiles(DefaultFileNames, pwd)",
+  "if len(candidates) > 0 {",
+  "if len(candidates) > 1 {",
+  "}",
+  "opts.FileNames = append(opts.FileNames, candidates[0])",
+  "overrides := findFiles(DefaultOverrideFileNames, pwd)",
+  "if len(overrides) > 0 {",
+  "if len(overrides) > 1 {",
+  "}",
+  "opts.FileNames = append(opts.FileNames, overrides[0])",
+  "}",
+  "return nil",
+  "}",
+  "return fmt.Errorf(\"no config files found in %s\", pwd)",
+  "}"]
+
+/-- src/loader/loader.go:findFiles -/
+def loader_loader__findFiles : List String := [
+  "func findFiles(names []string, pwd string) []string {",
+  "candidates := []string{}",
+  "for _, n := range names {",
+  "f := filepath.Join(pwd, n)",
+  "if _, err := os.Stat(f); err == nil {",
+  "candidates = append(candidates, f)",
+  "}",
+  "}",
+  "return candidates",
+  "}"]
+
 /-- src/loader/loader.go:loadExtendProject -/
 def loader_loader__loadExtendProject : List String := [
   "func loadExtendProject(p *types.Project, opts *LoaderOptions, file string, index int) error {",
@@ -3740,6 +4274,25 @@ def loader_merger__toEnvVarSlice : List String := [
   "return nil",
   "}"]
 
+/-- src/loader/mutators.go:apply -/
+def loader_mutators__apply : List String := [
+  "func apply(p *types.Project, m ...mutatorFunc) {",
+  "for _, mut := range m {",
+  "mut(p)",
+  "}",
+  "}"]
+
+/-- src/loader/mutators.go:applyWithErr -/
+def loader_mutators__applyWithErr : List String := [
+  "func applyWithErr(p *types.Project, m ...mutatorFuncE) error {",
+  "for _, mut := range m {",
+  "if err := mut(p); err != nil {",
+  "return err",
+  "}",
+  "}",
+  "return nil",
+  "}"]
+
 /-- src/loader/mutators.go:assignDefaultProcessValues -/
 def loader_mutators__assignDefaultProcessValues : List String := [
   "func assignDefaultProcessValues(p *types.Project) {",
@@ -3817,6 +4370,20 @@ def loader_mutators__copyProbe : List String := [
   "return &cp",
   "}"]
 
+/-- src/loader/mutators.go:copyWorkingDirToProbes -/
+def loader_mutators__copyWorkingDirToProbes : List String := [
+  "func copyWorkingDirToProbes(p *types.Project) {",
+  "for name, proc := range p.Processes {",
+  "if proc.LivenessProbe != nil && proc.LivenessProbe.Exec != nil && proc.LivenessProbe.Exec.WorkingDir == \"\" {",
+  "proc.LivenessProbe.Exec.WorkingDir = proc.WorkingDir",
+  "}",
+  "if proc.ReadinessProbe != nil && proc.ReadinessProbe.Exec != nil && proc.ReadinessProbe.Exec.WorkingDir == \"\" {",
+  "proc.ReadinessProbe.Exec.WorkingDir = proc.WorkingDir",
+  "}",
+  "p.Processes[name] = proc",
+  "}",
+  "}"]
+
 /-- src/loader/mutators.go:copyWorkingDirToProcesses -/
 def loader_mutators__copyWorkingDirToProcesses : List String := [
   "func copyWorkingDirToProcesses(p *types.Project, wd string) {",
@@ -3854,6 +4421,18 @@ def loader_mutators__replicaCopy : List String := [
   "return proc",
   "}"]
 
+/-- src/loader/mutators.go:setDefaultShell -/
+def loader_mutators__setDefaultShell : List String := [
+  "func setDefaultShell(p *types.Project) {",
+  "if p.ShellConfig == nil {",
+  "p.ShellConfig = command.DefaultShellConfig()",
+  "} else if p.ShellConfig.ElevatedShellCmd == \"\" || p.ShellConfig.ElevatedShellArg == \"\" {",
+  "shell := command.DefaultShellConfig()",
+  "p.ShellConfig.ElevatedShellCmd = shell.ElevatedShellCmd",
+  "p.ShellConfig.ElevatedShellArg = shell.ElevatedShellArg",
+  "}",
+  "}"]
+
 /-- src/loader/validators.go:isCyclicHelper -/
 def loader_validators__isCyclicHelper : List String := [
   "func isCyclicHelper(p *types.Project, procName string, visited map[string]bool, stack map[string]bool) bool {",
@@ -3879,6 +4458,17 @@ def loader_validators__isCyclicHelper : List String := [
   "return false",
   "}"]
 
+/-- src/loader/validators.go:validate -/
+def loader_validators__validate : List String := [
+  "func validate(p *types.Project, v ...validatorFunc) error {",
+  "for _, f := range v {",
+  "if err := f(p); err != nil {",
+  "return err",
+  "}",
+  "}",
+  "return nil",
+  "}"]
+
 /-- src/loader/validators.go:validateDependencyIsEnabled -/
 def loader_validators__validateDependencyIsEnabled : List String := [
   "func validateDependencyIsEnabled(p *types.Project) error {",
@@ -3900,6 +4490,34 @@ def loader_validators__validateDependencyIsEnabled : List String := [
   "return nil",
   "}"]
 
+/-- src/loader/validators.go:validateHealthDependencyHasHealthCheck -/
+def loader_validators__validateHealthDependencyHasHealthCheck : List String := [
+  "func validateHealthDependencyHasHealthCheck(p *types.Project) error {",
+  "for procName, proc := range p.Processes {",
+  "for depName, dep := range proc.DependsOn {",
+  "depProc, ok := p.Processes[depName]",
+  "if !ok {",
+  "errStr := fmt.Sprintf(\"dependency process '%s' in process '%s' is not defined\", depName, procName)",
+  "if p.IsStrict {",
+  "return errors.New(errStr)",
+  "}",
+  "continue",
+  "}",
+  "if dep.Condition == types.ProcessConditionHealthy && depProc.ReadinessProbe == nil && depProc.LivenessProbe == nil {",
+  "errStr := fmt.Sprintf(\"health dependency defined in '%s' but no health check exists in '%s'\", procName, depName)",
+  "if p.IsStrict {",
+  "return errors.New(errStr)",
+  "}",
+  "}",
+  "if dep.Condition == types.ProcessConditionLogReady && depProc.ReadyLogLine == \"\" {",
+  "errStr := fmt.Sprintf(\"log ready dependency defined in '%s' but no ready log line exists in '%s'\", procName, depName)",
+  "return errors.New(errStr)",
+  "}",
+  "}",
+  "}",
+  "return nil",
+  "}"]
+
 /-- src/loader/validators.go:validateNoCircularDependencies -/
 def loader_validators__validateNoCircularDependencies : List String := [
   "func validateNoCircularDependencies(p *types.Project) error {",
@@ -3913,6 +4531,41 @@ def loader_validators__validateNoCircularDependencies : List String := [
   "}",
   "}",
   "return nil",
+  "}"]
+
+/-- src/loader/validators.go:validateNoIncompatibleHealthChecks -/
+def loader_validators__validateNoIncompatibleHealthChecks : List String := [
+  "func validateNoIncompatibleHealthChecks(p *types.Project) error {",
+  "for procName, proc := range p.Processes {",
+  "if proc.ReadinessProbe != nil && proc.ReadyLogLine != \"\" {",
+  "errStr := fmt.Sprintf(\"'ready_log_line' and readiness probe defined in '%s' are incompatible\", procName)",
+  "return errors.New(errStr)",
+  "}",
+  "}",
+  "return nil",
+  "}"]
+
+/-- src/loader/validators.go:validateProcessConfig -/
+def loader_validators__validateProcessConfig : List String := [
+  "func validateProcessConfig(p *types.Project) error {",
+  "for _, proc := range p.Processes {",
+  "err := proc.ValidateProcessConfig()",
+  "if err != nil {",
+  "if p.IsStrict {",
+  "return err",
+  "}",
+  "}",
+  "}",
+  "return nil",
+  "}"]
+
+/-- src/loader/validators.go:validateShellConfig -/
+def loader_validators__validateShellConfig : List String := [
+  "func validateShellConfig(p *types.Project) error {",
+  "_, err := exec.LookPath(p.ShellConfig.ShellCommand)",
+  "if err != nil {",
+  "}",
+  "return err",
   "}"]
 
 /-- src/pclog/log_observer_connector.go:Connector.GetTailLength -/
